@@ -50,98 +50,7 @@ func c16(c *Ctx) {
 	R.Explain("R16.3", "no conversion of a UID/SeqID (uint32) value, or of a difference of two such values, to a narrower or signed 32-bit type (comparators must not wrap).")
 	R.Explain("R16.4", "loops over resolved []SeqInterval / []UIDInterval visit every member: the only exits besides exhaustion are returns (no break that would make the result depend on the order in which the client wrote the set).")
 
-	// ---- R16.1a -------------------------------------------------------------------
-	for _, name := range []string{"rfcparser.(*Parser).ParseNumber", "rfcparser.(*Parser).ParseNumberN"} {
-		f := c.fn("R16.1", name)
-		if f == nil {
-			continue
-		}
-		ok := false
-		for _, b := range f.Blocks {
-			iff := engine.IfOf(b)
-			if iff == nil {
-				continue
-			}
-			cmp, isCmp := iff.Cond.(*ssa.BinOp)
-			if !isCmp {
-				continue
-			}
-			var cst *ssa.Const
-			var other ssa.Value
-			exceedsIx := -1
-			if k, isK := cmp.Y.(*ssa.Const); isK {
-				cst, other = k, cmp.X
-				switch cmp.Op {
-				case token.GTR, token.GEQ:
-					exceedsIx = 0
-				case token.LEQ, token.LSS:
-					exceedsIx = 1
-				}
-			} else if k, isK := cmp.X.(*ssa.Const); isK {
-				cst, other = k, cmp.Y
-				switch cmp.Op {
-				case token.LSS, token.LEQ:
-					exceedsIx = 0
-				case token.GTR, token.GEQ:
-					exceedsIx = 1
-				}
-			}
-			if cst == nil || exceedsIx < 0 || cst.Value == nil || cst.Value.Kind() != constant.Int {
-				continue
-			}
-			lim, exact := constant.Uint64Val(cst.Value)
-			if !exact || lim > math.MaxUint32+1 {
-				continue
-			}
-			// the compared value is part of a loop-carried accumulation (reaches a phi that it feeds)
-			inLoop := false
-			for _, blk := range f.Blocks {
-				if body := engine.LoopBody(blk); body != nil && body[b] {
-					inLoop = true
-				}
-			}
-			accum := false
-			engine.Backward(other, engine.FlowOpts{}, func(x ssa.Value) bool {
-				if _, isPhi := x.(*ssa.Phi); isPhi {
-					accum = true
-				}
-				if bo, isB := x.(*ssa.BinOp); isB {
-					engine.Backward(bo.X, engine.FlowOpts{}, func(y ssa.Value) bool {
-						if _, isPhi := y.(*ssa.Phi); isPhi {
-							accum = true
-						}
-						if b2, ok := y.(*ssa.BinOp); ok {
-							if _, isPhi := b2.X.(*ssa.Phi); isPhi {
-								accum = true
-							}
-						}
-						return true
-					})
-				}
-				return true
-			})
-			// the exceeding edge returns a non-nil error
-			errRet := false
-			tgt := b.Succs[exceedsIx]
-			for _, blk := range f.Blocks {
-				if blk == tgt || engine.EdgeDominates(b, exceedsIx, blk) {
-					if len(blk.Instrs) > 0 {
-						if ret, isRet := blk.Instrs[len(blk.Instrs)-1].(*ssa.Return); isRet {
-							if lr := engine.LastResult(ret); lr != nil && !engine.IsNilConst(lr) {
-								errRet = true
-							}
-						}
-					}
-				}
-			}
-			if inLoop && accum && errRet {
-				ok = true
-			}
-		}
-		R.Check(ok, "R16.1", name+"|bounded-accumulation", P.Pos(f.Pos()),
-			"the accumulated number is compared with a constant <= 2^32-1 inside the loop and the exceeding edge is an error",
-			"the digits are accumulated without an upper bound <= 2^32-1 checked on every step: numbers beyond 32 bits wrap or are truncated by the later conversion to SeqID/UID and select some other message")
-	}
+	c.boundedAccumulation("R16.1")
 
 	// ---- R16.1b / R16.3 conversions ---------------------------------------------------
 	convs, narrow := 0, 0
@@ -853,4 +762,103 @@ func c16validateBeforeResult(c *Ctx) {
 		R.Check(ok, "R16.5", c.name(f)+"|success return", P.Pos(ret.Pos()), "the set was resolved (and thereby validated) first", "getMessagesInRange can return messages without having resolved the set: a member beyond the view (or malformed) is no longer refused and the command acts on other messages than named")
 	}
 	R.Min("R16.5", "success returns of getMessagesInRange", n, 1)
+}
+
+// boundedAccumulation (R16.1a / R11.8): the number parser bounds the value on every accumulation step.
+func (c *Ctx) boundedAccumulation(rule string) {
+	P, R := c.P, c.R
+	if rule != "R16.1" {
+		R.Explain(rule, "rfcparser.ParseNumber / ParseNumberN reject a value above 2^32-1 inside the accumulation loop, on every digit: a check made once after the loop sees a 64-bit accumulator that has already wrapped, so a 20-digit number passes as a small one (literal sizes, sequence numbers, UIDs).")
+	}
+	for _, name := range []string{"rfcparser.(*Parser).ParseNumber", "rfcparser.(*Parser).ParseNumberN"} {
+		f := c.fn(rule, name)
+		if f == nil {
+			continue
+		}
+		ok := false
+		for _, b := range f.Blocks {
+			iff := engine.IfOf(b)
+			if iff == nil {
+				continue
+			}
+			cmp, isCmp := iff.Cond.(*ssa.BinOp)
+			if !isCmp {
+				continue
+			}
+			var cst *ssa.Const
+			var other ssa.Value
+			exceedsIx := -1
+			if k, isK := cmp.Y.(*ssa.Const); isK {
+				cst, other = k, cmp.X
+				switch cmp.Op {
+				case token.GTR, token.GEQ:
+					exceedsIx = 0
+				case token.LEQ, token.LSS:
+					exceedsIx = 1
+				}
+			} else if k, isK := cmp.X.(*ssa.Const); isK {
+				cst, other = k, cmp.Y
+				switch cmp.Op {
+				case token.LSS, token.LEQ:
+					exceedsIx = 0
+				case token.GTR, token.GEQ:
+					exceedsIx = 1
+				}
+			}
+			if cst == nil || exceedsIx < 0 || cst.Value == nil || cst.Value.Kind() != constant.Int {
+				continue
+			}
+			lim, exact := constant.Uint64Val(cst.Value)
+			if !exact || lim > math.MaxUint32+1 {
+				continue
+			}
+			// the compared value is part of a loop-carried accumulation (reaches a phi that it feeds)
+			inLoop := false
+			for _, blk := range f.Blocks {
+				if body := engine.LoopBody(blk); body != nil && body[b] {
+					inLoop = true
+				}
+			}
+			accum := false
+			engine.Backward(other, engine.FlowOpts{}, func(x ssa.Value) bool {
+				if _, isPhi := x.(*ssa.Phi); isPhi {
+					accum = true
+				}
+				if bo, isB := x.(*ssa.BinOp); isB {
+					engine.Backward(bo.X, engine.FlowOpts{}, func(y ssa.Value) bool {
+						if _, isPhi := y.(*ssa.Phi); isPhi {
+							accum = true
+						}
+						if b2, ok := y.(*ssa.BinOp); ok {
+							if _, isPhi := b2.X.(*ssa.Phi); isPhi {
+								accum = true
+							}
+						}
+						return true
+					})
+				}
+				return true
+			})
+			// the exceeding edge returns a non-nil error
+			errRet := false
+			tgt := b.Succs[exceedsIx]
+			for _, blk := range f.Blocks {
+				if blk == tgt || engine.EdgeDominates(b, exceedsIx, blk) {
+					if len(blk.Instrs) > 0 {
+						if ret, isRet := blk.Instrs[len(blk.Instrs)-1].(*ssa.Return); isRet {
+							if lr := engine.LastResult(ret); lr != nil && !engine.IsNilConst(lr) {
+								errRet = true
+							}
+						}
+					}
+				}
+			}
+			if inLoop && accum && errRet {
+				ok = true
+			}
+		}
+		R.Check(ok, rule, name+"|bounded-accumulation", P.Pos(f.Pos()),
+			"the accumulated number is compared with a constant <= 2^32-1 inside the loop and the exceeding edge is an error",
+			"the digits are accumulated without an upper bound <= 2^32-1 checked on every step: numbers beyond 32 bits wrap or are truncated by the later conversion to SeqID/UID and select some other message")
+	}
 }
